@@ -208,6 +208,10 @@ def decisionMargin (sc : SolveCase) : Float :=
   let x0 := sc.guesses.map (·.2)
   let rel (a t : Float) : Float :=
     if a.isNaN || t.isNaN then 1.0 else (a - t).abs / (max t.abs 1e-300)
+  -- a threshold may be 0 (tolerance 0 in the malformed stream): then the decision is "is it exactly
+  -- zero", which a last-ulp difference in a coordinate of magnitude `xinf` can flip
+  let relAt (a t xinf : Float) : Float :=
+    if a.isNaN || t.isNaN then 1.0 else (a - t).abs / (max t.abs (1e-9 * max 1.0 xinf))
   (List.range sc.calls.size).foldl (init := 1.0) fun m ci =>
     match sc.calls[ci]?, lvls[ci]? with
     | some call, some p =>
@@ -221,7 +225,7 @@ def decisionMargin (sc : SolveCase) : Float :=
           let lk : Nat → Option Float := fun i => arr[i]?
           let m := match residualAll subset lk with
             | .ok (r, _) => match maxAbs? r with
-              | some l => min m (rel l sc.cfg.convergenceTolerance)
+              | some l => min m (relAt l sc.cfg.convergenceTolerance (maxAbs0 x))
               | none => m
             | .error _ => m
           match call.steps[k]? with
@@ -229,7 +233,7 @@ def decisionMargin (sc : SolveCase) : Float :=
             let curInf := maxAbs0 x
             let stepInf := (maxAbs? d).getD 0.0
             let thr := sc.cfg.stepTolerance * (curInf + sc.cfg.stepTolerance)
-            go fuel (k + 1) (List.zipWith (· + ·) x d) (min m (rel stepInf thr))
+            go fuel (k + 1) (List.zipWith (· + ·) x d) (min m (relAt stepInf thr (1e-3 * curInf)))
           | _ => (m, x)
       let (m, xf) := go (call.nIters + 1) 0 x0 m
       -- satisfaction sweep at the final values of this call
